@@ -638,9 +638,11 @@ impl<'a> Parser<'a> {
     ///
     /// ```
     pub const fn trim(mut self) -> Self {
-        parsing! {self, FromBoth;
-            self.str = crate::string::trim(self.str);
-        }
+        let trimmed_start = crate::string::trim_start(self.str);
+        self.parse_direction = ParseDirection::FromBoth;
+        self.start_offset += (self.str.len() - trimmed_start.len()) as u32;
+        self.str = crate::string::trim_end(trimmed_start);
+        self
     }
 
     /// Removes whitespace from the start of the parsed string.
@@ -718,9 +720,11 @@ impl<'a> Parser<'a> {
     where
         P: Pattern<'p>,
     {
-        parsing! {self, FromBoth;
-            self.str = crate::string::trim_matches(self.str, needle);
-        }
+        let trimmed_start = crate::string::trim_start_matches(self.str, needle);
+        self.parse_direction = ParseDirection::FromBoth;
+        self.start_offset += (self.str.len() - trimmed_start.len()) as u32;
+        self.str = crate::string::trim_end_matches(trimmed_start, needle);
+        self
     }
 
     /// Repeatedly removes all instances of `needle` from the start of the parsed string.
